@@ -89,6 +89,13 @@ def gen_calls(rng, ds, ncalls):
         which = rng.choice(["baseline", "reporting"])
         cut = rng.choice(cuts)
         md = rng.choice([None, 1, 30, 365, 400, max(1, sp // 2), max(1, sp // 3), sp, 2, 3, 0, 0])
+        if len(rows) >= 2 and rng.random() < 0.15:
+            # a row lying EXACTLY max_days from the limit (the boundary itself; across a clock change this is where
+            # wall-clock and elapsed day counts part)
+            i, j = sorted(rng.sample(range(len(rows)), 2))
+            if (rows[j][0] - rows[i][0]) % DAY == 0:
+                md = (rows[j][0] - rows[i][0]) // DAY
+                cut = rows[j][0] if which == "baseline" else rows[i][0]
         other = None
         if md is None and rng.random() < 0.6:
             other = rng.choice(cuts)
